@@ -304,6 +304,7 @@ type symIdP struct {
 	idExp      time.Time
 	status     int
 	bodyText   string
+	ctParams   string
 }
 
 type kitBody struct {
@@ -341,6 +342,8 @@ func (p *symIdP) prepare() {
 		vn.Assume(p.status != 200)
 	}
 	p.bodyText = p.body()
+	p.ctParams = vn.StringIn("idp-content-type-params", 16, "; =-charsetUTF8utf")
+	vn.Assume(vn.Or(p.ctParams == "", p.ctParams == ";charset=UTF-8", p.ctParams == "; charset=utf-8"))
 }
 
 func (p *symIdP) RoundTrip(req *http.Request) (*http.Response, error) {
@@ -364,7 +367,9 @@ func (p *symIdP) RoundTrip(req *http.Request) (*http.Response, error) {
 	if p.answerKind == 2 {
 		return &http.Response{StatusCode: 200, Body: io.NopCloser(vn.FailingReader())}, nil
 	}
-	return &http.Response{StatusCode: 200, Body: io.NopCloser(strings.NewReader(p.bodyText))}, nil
+	// RFC 6749 5.1: the token response is application/json; media-type parameters are allowed
+	ct := "application/json" + p.ctParams
+	return &http.Response{StatusCode: 200, Header: http.Header{"Content-Type": {ct}}, Body: io.NopCloser(strings.NewReader(p.bodyText))}, nil
 }
 
 // body builds the token-endpoint answer. All kinds are symbolic integers (the JSON / JWT stubs
@@ -530,3 +535,15 @@ func kitCookieHeaders(cfg *oidcv1.OIDCConfig, value string) map[string]string {
 
 func newCheckResponse() *envoy.CheckResponse { return &envoy.CheckResponse{} }
 func ctxBackground() context.Context        { return context.Background() }
+
+// kitClientHeaders: headers any client can put on a request and which some deployments use to
+// describe the "original" request (forwarding headers). The properties speak of the scheme, host
+// and path Envoy reports for the request; these headers must not change what is remembered,
+// compared or answered. Every value is an arbitrary short string (possibly empty).
+func kitClientHeaders() map[string]string {
+	h := map[string]string{}
+	for _, name := range []string{"x-forwarded-proto", "x-forwarded-host", "x-forwarded-port", "x-forwarded-prefix", "x-original-url", "forwarded"} {
+		h[name] = vn.String("hdr-"+name, 5) // present, possibly empty (no fork per header)
+	}
+	return h
+}
